@@ -674,6 +674,11 @@ class Sim(object):
         self.events.append((self.loop.vnow, topic, msg))
         bits = topic.split(".")
         wname, ev = (bits[1], bits[2]) if len(bits) >= 3 else ("", topic)
+        if " " not in wname:      # the topic carries the watcher's "resource name" (blanks -> '_'): back to its name
+            for w in list(getattr(self.arb, "watchers", [])) + list(self._all_watchers):
+                if " " in w.name and w.name.lower().replace(" ", "_") == wname:
+                    wname = w.name.lower()
+                    break
         pid = msg.get("process_pid", 0) if isinstance(msg, dict) else 0
         a = msg.get("exit_code", 0) if isinstance(msg, dict) else 0
         x = ev
